@@ -97,8 +97,17 @@ BoardComplete(b, d) ==
      IF T!PassedOutC(c) THEN d.cards = <<>> ELSE Len(d.cards) = 52
 DecsComplete(e, n) == \A k \in 1..n : BoardComplete(e.boards[k], e.decs[k])
 
+RECURSIVE Clauses(_)
 Clauses(e) ==
-  IF e.kind = "normal" THEN
+  IF e.kind = "restart" THEN
+     \* growth (extra check X05): Server main() with a board file and a restart
+     \* index - the session is the session of the boards from that index on
+     IF T!RestartOk(e.file_boards, e.restart)
+     THEN << <<"restart-boards", e.boards = T!Restart(e.file_boards, e.restart)>> >>
+          \o Clauses([e EXCEPT !.kind = "normal", !.boards = T!Restart(e.file_boards, e.restart)])
+     ELSE << <<"restart-refused", e.done.main_exc /\ ~e.file.present>>,
+             <<"restart-nobody-served", \A s \in 1..4 : e.s2c[s] = <<>> >> >>
+  ELSE IF e.kind = "normal" THEN
      LET base == << <<"complete-verdict", e.done.verdict = "all-done">>,
                     <<"complete-main", ~e.done.main_exc>>,
                     <<"complete-seat-threads", e.done.seats_done /\ ~e.done.seats_exc>>,
